@@ -38,7 +38,7 @@ COMPONENTS = {"real": ["Arbiter.run/handle_term|int|quit/halt/stop/kill_workers/
               "stub": ["kernel", "stub worker run loop (master family)", "selector/executor/lock (gthread)", "clients"],
               "shim": ["gevent Pool/StreamServer/sleep/spawn/Timeout (simkit.gevent_shim)", "eventlet spawn/GreenPool/GreenSocket/sleep/Timeout/kill (simkit.eventlet_shim)"], "not_covered": ["ssl", "real gevent/eventlet hubs"]}
 
-PHASES = ["idle", "head_partial", "app_running", "resp_partial", "keepalive_idle", "ka_second_partial"]
+PHASES = ["idle", "head_partial", "app_running", "resp_partial", "keepalive_idle", "ka_second_partial", "overrun_pipelined"]
 SIG = {"TERM": signal.SIGTERM, "QUIT": signal.SIGQUIT, "INT": signal.SIGINT}
 
 
@@ -64,6 +64,12 @@ def phase_client(rng, phase, gt):
         n, d = rng.choice([(3, 0.4), (4, 0.5), (2, 1.0)])
         ops += [["send", W_req("/slowbody/%d/%s" % (n, d))], ["recv", 40.0], ["await-eof", 15.0]]
         return ops, (t0 + 0.01, t0 + (n - 1) * d), (n - 1) * d
+    if phase == "overrun_pipelined":
+        # a response that outlasts the graceful timeout, with a second request already waiting behind it on the same connection: the first
+        # may be cut when the time is up - but then nothing else may be written where its body was
+        n = 2 * (gt + 3)
+        ops += [["send", W_req("/slowbody/%d/0.5" % n) + W_req("/b")], ["recv", 40.0], ["await-eof", 15.0]]
+        return ops, (t0 + 0.01, t0 + 1.0), (n - 1) * 0.5
     if phase == "ka_second_partial":
         # a second request on a kept-alive connection whose head is partly received when the signal lands
         r = W_req("/b")
